@@ -245,6 +245,67 @@ theorem loopApproxRefinementPx_eq (P : Params) (hP : P.variant = sourceVariant) 
             simp [encPix, hO, Generated.KernelsRefine.flagUpdateIsOr, stoppedBit, Flags.stoppedInterpolation]
   · simp [encPix]
 
+/-! ## The specification of the approximation, on the model
+
+  FULL STATEMENT (NOT YET PROVED — kept visible; the proof was started and is about half done):
+
+    theorem approxPixel_spec (P : Params) (hO : P.variant.fixOr = true) (hF : P.variant.fixFlat = true) (hsp : 0 < P.subpix)
+        (A B : Int) (hA : P.dmin = A) (hB : P.dmax = B) (x : ApxIn) (n : Nat)
+        (hn : (n : Int) = (B - A) * P.subpix + 1) (hrows : ∀ i, i < x.rows.length → (x.rows.getD i []).length = n)
+        (tol : ℚ) (htol : 0 ≤ tol) (hc : apxClassify P x ≠ .illFormed) :
+        ∃ o, approxPixel P x = .ok o ∧ apxFailing P x o tol = []
+
+  No clause is known to be false of the model: for an INTEGER right disparity strictly inside `[−B, −A]` a shift of at most half a
+  sample stays inside the interval (there is no analogue of C06-F5 here), so no counterexample theorem is stated.
+  Done below: the alignment lemmas the proof needs (`pyGet2_costAt2`: inside the arrays the unchecked read is the plain read;
+  `pyInt_intCast`; `stopped_clauses`: the three clauses of a stopped pixel for the `|=` update) and the case of invalid pixels
+  (`approxPixel_spec_partial`).  Missing: the valid pixel — sample index and diagonal as integers (set up in the abandoned
+  script: `j = (−k − A)·subpix`, `0 ≤ j < n`), the three reads rewritten by `pyGet2_costAt2`, then `method_stop` / `method_refine`
+  (`|shift| ≤ 1/2`, cost not worse) exactly as in `refinePixel_core`. -/
+
+theorem pyGet2_costAt2 (m : List (List Val)) (i j : Int) (n : Nat) (hi : 0 ≤ i) (hi' : i < m.length)
+    (hrow : (m.getD i.toNat []).length = n) (hj : 0 ≤ j) (hj' : j < n) :
+    pyGet2 m i j = some (costAt2 m i j) := by
+  obtain ⟨a, rfl⟩ := Int.eq_ofNat_of_zero_le hi
+  obtain ⟨b, rfl⟩ := Int.eq_ofNat_of_zero_le hj
+  have ha : a < m.length := by exact_mod_cast hi'
+  have hb : b < n := by exact_mod_cast hj'
+  simp only [Int.toNat_natCast] at hrow
+  have hrow' : (m[a]).length = n := by simpa [List.getD_eq_getElem?_getD, ha] using hrow
+  simp [pyGet2, pyGetG, pyGet, costAt2, costAt, ha, List.getD_eq_getElem?_getD, hrow', hb]
+
+theorem pyInt_intCast (z : Int) : pyInt (z : ℚ) = z := by
+  unfold pyInt
+  split
+  · simp
+  · have e : (-(z : ℚ)) = ((-z : ℤ) : ℚ) := by push_cast; ring
+    rw [e, Rat.floor_intCast]; omega
+
+theorem stopped_clauses (f : Nat) (c1 tol : ℚ) (htol : 0 ≤ tol) (d : Val) :
+    (d == d && (addFlag true f stoppedBit) / 8 % 2 == 1) = true ∧
+    ((addFlag true f stoppedBit) % 8 == f % 8 && (addFlag true f stoppedBit) / 16 == f / 16) = true ∧
+    close c1 c1 tol = true := by
+  obtain ⟨h1, h2⟩ := addFlag_stopped true f (Or.inl rfl)
+  refine ⟨?_, ?_, ?_⟩
+  · simp only [bitAt] at h1
+    simp [h1]
+  · simpa [sameExceptBit3] using h2
+  · simp [close, htol]
+
+/-- the specification holds of the model at every INVALID right pixel (the part of `approxPixel_spec` that is proved) -/
+theorem approxPixel_spec_partial (P : Params) (x : ApxIn) (tol : ℚ) (hi : Flags.isInvalid x.flag = true) :
+    ∃ o, approxPixel P x = .ok o ∧ apxFailing P x o tol = [] := by
+  refine ⟨⟨.nan, x.d, x.flag⟩, by simp [approxPixel, hi], ?_⟩
+  simp [apxFailing, apxClauses, apxClassify, hi]
+
+/-- … and of the GENERATED pixel function there, for any `method` (transfer through `loopApproxRefinementPx_invalid`) -/
+theorem generated_approx_pixel_spec_partial (P : Params) (x : ApxIn) (tol : ℚ)
+    (method : Val → Val → Val → Val → String → PyRes (Val × Val × Int)) (hi : Flags.isInvalid x.flag = true) :
+    ∃ o : PixOut, loopApproxRefinementPx method x.rows (x.col : Int) x.d x.flag P.dmin P.dmax (P.subpix : Int)
+        (measureOf P.isMax) = .ok (o.coeff, o.d, o.flag) ∧ apxFailing P x o tol = [] := by
+  refine ⟨⟨.nan, x.d, x.flag⟩, loopApproxRefinementPx_invalid _ _ _ _ _ _ _ _ _ hi, ?_⟩
+  simp [apxFailing, apxClauses, apxClassify, hi]
+
 /-! ## The wiring of the two public methods -/
 
 /-- what `subpixel_refinement` passes to `loop_refinement` and does with its results (locals resolved through their single
